@@ -2,7 +2,8 @@
 From Coq Require Import ZArith NArith List String Bool Lia PeanoNat.
 From LV Require Import Base.Conc Base.Events Model.DhpLang Model.Dhp Proofs.DhpBase Proofs.DhpSeq Proofs.DhpSeqThm Proofs.DhpHist
   Proofs.DhpLangProofs Proofs.DhpAllocA Proofs.DhpInvB Proofs.DhpQuietB Proofs.DhpQuietB2 Proofs.DhpRulesB Proofs.DhpStepsB1 Proofs.DhpStepsB2
-  Proofs.DhpStepsB3 Proofs.DhpStepsB4 Proofs.DhpStepsB5 Proofs.DhpStepsB6 Proofs.DhpStepsB7 Proofs.DhpProgB1 Proofs.DhpProgB2.
+  Proofs.DhpStepsB3 Proofs.DhpStepsB4 Proofs.DhpStepsB5 Proofs.DhpStepsB6 Proofs.DhpStepsB7 Proofs.DhpProgB1 Proofs.DhpProgB2
+  Proofs.DhpProgB3 Proofs.DhpProgB4.
 Import ListNotations.
 
 Definition nodetach (o : op) : Prop := o <> ODetach.
@@ -34,7 +35,9 @@ Section MainC.
   Lemma Rel_tls L L' l : Rel L l -> l_tls L' = l_tls L -> Rel L' l.
   Proof. intros (H1 & H2) E. split; auto. intros r. rewrite E. apply H2. Qed.
 
-  Lemma spec_run_op t L l o : nodetach o -> Rel L l -> dsafeB c t (run_op c t L o) l Qop.
+  Definition okop (o : op) : Prop := nodetach o \/ c_oldtail c = false.
+
+  Lemma spec_run_op t L l o : okop o -> Rel L l -> dsafeB c t (run_op c t L o) l Qop.
   Proof.
     intros Hnd HR. pose proof HR as (Hi & Ht). pose proof Hi as (I1 & I2 & I3 & I4 & I5 & I6 & I7 & I8 & I9).
     destruct o; cbn [run_op].
@@ -43,7 +46,13 @@ Section MainC.
       apply dsafeB_xbind. apply alloc_thread_data_spec; auto; [|intros; exact I].
       intros r l' (X1 & X2) Hr. cbn beta iota. apply dsafeB_xemit_q; [constructor; [apply qevB_att|constructor]|].
       apply dsafeB_rsp_ret. split; auto. cbn. intros r' E'. inversion E'; subst. exact Hr.
-    - contradiction.
+    - (* detach *)
+      destruct Hnd as [Hnd|Htail]; [exfalso; apply Hnd; reflexivity|].
+      apply dsafeB_inv; [lia|]. destruct (l_tls L) as [r|] eqn:E; [|apply dsafeB_skip_ret; exact HR].
+      apply dsafeB_xbind. apply free_thread_data_spec; auto.
+      + constructor; [apply qevB_relall|constructor; [apply qevB_det|constructor]].
+      + intros l' Hi'. cbn beta iota. apply dsafeB_rsp_ret. split; auto. cbn. discriminate.
+      + intros; exact I.
     - (* Guard ctor *)
       apply dsafeB_inv; [lia|]. destruct (l_tls L) as [r|] eqn:E; [|apply dsafeB_skip_ret; exact HR].
       destruct (gfind (l_guards L) j); [apply dsafeB_skip_ret; exact HR|].
@@ -97,13 +106,13 @@ Section MainC.
       apply dsafeB_inv; [lia|]. apply dsafeB_quiet_seq; [apply qB_wait_loop|exact I|]. intros _. apply dsafeB_rsp_ret. exact HR.
   Qed.
 
-  Lemma spec_run_ops t : forall os L l, Forall nodetach os -> Rel L l -> dsafeB c t (run_ops c t L os) l (fun _ _ => True).
+  Lemma spec_run_ops t : forall os L l, Forall okop os -> Rel L l -> dsafeB c t (run_ops c t L os) l (fun _ _ => True).
   Proof.
     induction os as [|o os IH]; intros L l Hnd HR; cbn [run_ops]; [exact I|]. inversion Hnd; subst.
     apply dsafeB_xbind. eapply dsafe_weaken; [|apply spec_run_op; eauto]. intros [L'|] l' H; cbn; auto.
   Qed.
 
-  Lemma spec_thread t os : Forall nodetach os -> dsafeB c t (thread_src c t os) vb0 (fun _ _ => True).
+  Lemma spec_thread t os : Forall okop os -> dsafeB c t (thread_src c t os) vb0 (fun _ _ => True).
   Proof.
     intros Hnd. unfold thread_src. apply dsafeB_act_quiet; [apply qB_begin|]. intros _. unfold to_unit. apply dsafe_bind.
     eapply dsafe_weaken; [|apply spec_run_ops; auto]; [intros; exact I|].
